@@ -177,6 +177,10 @@ def gen_sources(rng, n):
         out.append(decorate(r, '<v\n title="{{ %s }}"\tdata-k="😀">é{{ %s }}😀</v>' % (e, e)))
         # a binding followed by static text: the text is a literal of its own
         out.append(decorate(r, '<v title="{{ %s }}q&amp;" data-k="{{ %s }}{{ %s }}z">{{ %s }}t&lt;😀</v>' % (e, e, e, e)))
+    # blanks, line breaks and comments between the tokens of member / call / index chains and literals (each token's location is its own text)
+    for e in ["x. y", "x .y", "x . y .z", "p.\n q", "a./* c */b", "a/* c */.b", "a[ 0 ] . b ( c , d )", "a .\n\tb\n. c", "f ( a ) [ 'k' ] .\nm", "{ a : 1 , b }. a",
+              "[ 1 , , 2 ] [ 0 ]", "x ?. y", "a ? b . c : d .\n e", "! a . b", "typeof\na . b", "a.b ?? c .\nd"]:
+        out.append(decorate(rng.fork(("chain", e)), '<v title="{{ %s }}">{{ %s }}t</v>' % (e, e)))
     for e in ["x + 's'", "'s' + x", "x + ''", "a + b + 't'", "x + 's' + 't'", "(x + 's')", "f(x) + '&'"]:
         out.append(decorate(rng.fork(("lit", e)), '<v title="{{ %s }}q&amp;" data-k="{{ %s }}{{ %s }}z">{{ %s }}t&lt;😀</v>' % (e, e, e, e)))
     return out
